@@ -21,6 +21,7 @@ RULE = (
     "width from the minimum the statement allows up to 200; indentation 0-8; ANSI and plain formatter. Clauses: no "
     "exception; every line <= W; rectangle (equal widths for styles with a visible right edge, <= common width otherwise); "
     "vertical borders at the same offsets on every row line and columns' characters inside their span; per-column text "
+    "Also: a style added to the formatter after the I/O was built, used in cells; rows of the wrong size are refused and leave the table as it was. "
     "top-to-bottom equals the cells' text; header and rows unchanged. non-trivial = at least one column wrapped (natural "
     "width exceeds the available width); distinct by (shape, length-class vector, W, style, alignments)."
 )
